@@ -31,6 +31,7 @@ type knownFinding struct {
 	Property string         `json:"property"`
 	Harness  string         `json:"harness"`
 	Label    string         `json:"label"`
+	Labels   []string       `json:"labels"`
 	Vars     map[string]int `json:"vars"`
 	SMT      string         `json:"smt"`
 	What     string         `json:"what"`
@@ -75,6 +76,7 @@ type shared struct {
 	obsLogs                                                 []string
 	start                                                   time.Time
 	extCache                                                sync.Map
+	fnInfos                                                 sync.Map
 	maxPaths                                                int
 	truncated                                               bool
 	sizes                                                   types.Sizes
@@ -116,6 +118,13 @@ type pathState struct {
 	loops      map[*ssa.BasicBlock]int
 	ended      bool
 	sigs       []*sigRec
+	hstates    map[*value]*hstate
+	lastModel  map[string]*big.Int
+	known      map[*Term]*Term
+	simpMemo   map[*Term]*Term
+	pcSet      map[*Term]bool
+
+	initAppsLoaded bool
 }
 
 func (ps *pathState) noteCall(fn *ssa.Function) {
@@ -139,7 +148,27 @@ func (ps *pathState) assume(t *Term) {
 		return
 	}
 	ps.pc = append(ps.pc, t)
+	if ps.pcSet == nil {
+		ps.pcSet = map[*Term]bool{}
+	}
+	ps.pcSet[t] = true
+	if t.op == opEq && t.args[0].isConst() != t.args[1].isConst() {
+		if ps.known == nil {
+			ps.known = map[*Term]*Term{}
+		}
+		if t.args[0].isConst() {
+			ps.known[t.args[1]] = t.args[0]
+		} else {
+			ps.known[t.args[0]] = t.args[1]
+		}
+	}
+	ps.simpMemo = nil
 	ps.i.sol.assert(t)
+	if ps.lastModel != nil {
+		if v, ok := t.eval(ps.lastModel, map[int]*big.Int{}); !ok || v.Sign() == 0 {
+			ps.lastModel = nil
+		}
+	}
 }
 
 // decide resolves a symbolic condition to a concrete branch.
@@ -150,6 +179,10 @@ func (i *interpreter) decide(c *Term) bool {
 	ps := i.ps
 	if ps == nil {
 		panic(engineError{"symbolic decision outside a path (package init?)"})
+	}
+	c = ps.simplify(c)
+	if c.isConst() {
+		return c.c != 0
 	}
 	tb := i.tb
 	if ps.pos < len(ps.prefix) {
@@ -165,12 +198,43 @@ func (i *interpreter) decide(c *Term) bool {
 	}
 	ps.pos++
 	nc := tb.Not(c)
-	rT := i.sol.check(c)
-	var rF satResult
-	if rT == resUnsat {
-		rF = resSat
-	} else {
-		rF = i.sol.check(nc)
+	// Syntactic shortcut: the condition (or its negation) is already a conjunct of the path condition.
+	if ps.pcSet[c] {
+		ps.trace = append(ps.trace, 1)
+		return true
+	}
+	if ps.pcSet[nc] {
+		ps.trace = append(ps.trace, 0)
+		return false
+	}
+	// A cached model of the path condition decides one side without a query.
+	var rT, rF satResult
+	known := false
+	if ps.lastModel != nil {
+		if v, ok := c.eval(ps.lastModel, map[int]*big.Int{}); ok {
+			known = true
+			if v.Sign() != 0 {
+				rT = resSat
+				rF = i.sol.check(nc)
+			} else {
+				rF = resSat
+				rT = i.sol.check(c)
+				if rT == resSat {
+					ps.fetchModel()
+				}
+			}
+		}
+	}
+	if !known {
+		rT = i.sol.check(c)
+		if rT == resUnsat {
+			rF = resSat
+		} else {
+			if rT == resSat {
+				ps.fetchModel()
+			}
+			rF = i.sol.check(nc)
+		}
 	}
 	if rT == resUnknown || rF == resUnknown {
 		ps.unknown = true
@@ -195,6 +259,24 @@ func (i *interpreter) decide(c *Term) bool {
 	panic(pathAbort{kind: "infeasible"})
 }
 
+// fetchModel caches the solver's current model (call right after a sat answer).
+func (ps *pathState) fetchModel() {
+	var vars []*Term
+	for _, v := range ps.nondet {
+		vars = append(vars, v)
+	}
+	vals, err := ps.i.sol.termValues(vars)
+	if err != nil {
+		ps.lastModel = nil
+		return
+	}
+	m := make(map[string]*big.Int, len(vars))
+	for k, v := range vars {
+		m[v.name] = vals[k]
+	}
+	ps.lastModel = m
+}
+
 // concretize resolves a symbolic bit-vector to one of its feasible values,
 // forking over all of them (bounded by maxFanout).
 func (i *interpreter) concretize(t *Term, what string) uint64 {
@@ -204,6 +286,10 @@ func (i *interpreter) concretize(t *Term, what string) uint64 {
 	ps := i.ps
 	if ps == nil {
 		panic(engineError{"concretize outside a path"})
+	}
+	t = ps.simplify(t)
+	if t.isConst() {
+		return t.c
 	}
 	tb := i.tb
 	if t.w > 64 {
@@ -630,9 +716,117 @@ func (sh *shared) run() {
 	sh.work = [][]uint64{nil}
 	sh.paths = 1
 	var wg sync.WaitGroup
+	if sh.verbose {
+		stop := make(chan struct{})
+		defer close(stop)
+		go func() {
+			tk := time.NewTicker(5 * time.Second)
+			defer tk.Stop()
+			for {
+				select {
+				case <-stop:
+					return
+				case <-tk.C:
+					sh.mu.Lock()
+					fmt.Fprintf(os.Stderr, "[progress %s] t=%.0fs done=%d pruned=%d bound=%d queue=%d active=%d steps=%d viol=%d\n",
+						sh.hname, time.Since(sh.start).Seconds(), sh.pathsDone, sh.pathsPruned, sh.pathsBound, len(sh.work), sh.active, sh.steps, len(sh.violations))
+					sh.mu.Unlock()
+				}
+			}
+		}()
+	}
 	for w := 0; w < sh.opts.workers; w++ {
 		wg.Add(1)
 		go sh.worker(w, &wg)
 	}
 	wg.Wait()
+}
+
+// simplify rewrites t under what the path condition already fixes: subterms that
+// were equated with constants (concretised values) and Boolean conjuncts of the
+// path condition. A constant result decides a branch without a solver query.
+func (ps *pathState) simplify(t *Term) *Term {
+	if t.isConst() || t.op == opVar && ps.known[t] == nil && !ps.pcSet[t] {
+		if t.op == opVar && t.w == 0 {
+			if ps.pcSet[ps.i.tb.Not(t)] {
+				return ps.i.tb.ff
+			}
+		}
+		return t
+	}
+	if ps.simpMemo == nil {
+		ps.simpMemo = map[*Term]*Term{}
+	}
+	return ps.simp(t)
+}
+
+func (ps *pathState) simp(t *Term) *Term {
+	if t.isConst() {
+		return t
+	}
+	if r, ok := ps.simpMemo[t]; ok {
+		return r
+	}
+	tb := ps.i.tb
+	var r *Term
+	if k := ps.known[t]; k != nil {
+		r = k
+	} else if t.w == 0 && ps.pcSet[t] {
+		r = tb.tt
+	} else if t.w == 0 && t.op != opNot && ps.pcSet[tb.Not(t)] {
+		r = tb.ff
+	} else if len(t.args) == 0 || t.op == opRaw {
+		r = t
+	} else {
+		args := make([]*Term, len(t.args))
+		changed := false
+		for k, a := range t.args {
+			args[k] = ps.simp(a)
+			if args[k] != a {
+				changed = true
+			}
+		}
+		if !changed {
+			r = t
+		} else {
+			r = tb.rebuild(t, args)
+		}
+	}
+	ps.simpMemo[t] = r
+	return r
+}
+
+// rebuild re-applies t's operator to new arguments (with constant folding).
+func (tb *termTable) rebuild(t *Term, a []*Term) *Term {
+	switch t.op {
+	case opNot:
+		return tb.Not(a[0])
+	case opAnd:
+		return tb.And(a[0], a[1])
+	case opOr:
+		return tb.Or(a[0], a[1])
+	case opIte:
+		return tb.Ite(a[0], a[1], a[2])
+	case opEq:
+		return tb.Eq(a[0], a[1])
+	case opAdd, opSub, opMul, opUdiv, opUrem, opSdiv, opSrem, opBvAnd, opBvOr, opBvXor, opShl, opLshr, opAshr:
+		return tb.Bin(t.op, a[0], a[1])
+	case opUlt, opUle, opSlt, opSle:
+		return tb.Cmp(t.op, a[0], a[1])
+	case opBvNot:
+		return tb.BvNot(a[0])
+	case opNeg:
+		return tb.Neg(a[0])
+	case opConcat:
+		return tb.Concat(a[0], a[1])
+	case opExtract:
+		return tb.Extract(a[0], t.hi, t.lo)
+	case opZext:
+		return tb.Zext(a[0], t.w)
+	case opSext:
+		return tb.Sext(a[0], t.w)
+	case opUF:
+		return tb.UF(t.name, t.w, a...)
+	}
+	return t
 }
